@@ -19,6 +19,13 @@ def run(S):
     D = S.decls()
     mpp_timeout(S, D)
     all_or_nothing_claim(S, D)
+    # C04.g: the acceptance side of "a payment becomes claimable exactly when complete": handle_claimable_htlc (the
+    # obligation family C08.h, re-labelled) - PaymentClaimable iff the parts complete the payment, the purposes agree and NO
+    # earlier claim of the same hash is still in flight (a hash being claimed must not become claimable again)
+    from .C08 import claim_deadline
+    S.alias = {'C08.h': 'C04.g'}
+    claim_deadline(S, D)
+    S.alias = {}
     E = S.engine()
     mem = {}
     f_info = S.fn('construct_info_bytes', nargs=5)
